@@ -166,6 +166,122 @@ impl Cmp<'_> {
         _ => None,
       }
     };
+    // constructors: parameter types of a non-private constructor (overload
+    // signatures when there are overloads) and the properties its parameter
+    // properties declare
+    {
+      let pats = |c: &Constructor| -> Vec<Pat> {
+        c.params
+          .iter()
+          .map(|p| match p {
+            ParamOrTsParamProp::Param(p) => p.pat.clone(),
+            ParamOrTsParamProp::TsParamProp(pp) => match &pp.param {
+              TsParamPropParam::Ident(b) => Pat::Ident(b.clone()),
+              TsParamPropParam::Assign(a) => Pat::Assign(a.clone()),
+            },
+          })
+          .collect()
+      };
+      let octors: Vec<&Constructor> = orig.body.iter().filter_map(|m| match m { ClassMember::Constructor(c) => Some(c), _ => None }).collect();
+      let ectors: Vec<&Constructor> = emit.body.iter().filter_map(|m| match m { ClassMember::Constructor(c) => Some(c), _ => None }).collect();
+      let public_sigs: Vec<&Constructor> = if octors.len() > 1 {
+        octors.iter().copied().filter(|c| c.body.is_none()).collect()
+      } else {
+        octors.clone()
+      };
+      let emitted_sigs: Vec<&Constructor> = if octors.len() > 1 {
+        ectors.iter().copied().filter(|c| c.body.is_none()).collect()
+      } else {
+        ectors.clone()
+      };
+      let any_private = octors.iter().any(|c| c.accessibility == Some(Accessibility::Private));
+      if !any_private {
+        if public_sigs.len() != emitted_sigs.len() {
+          self.bad(
+            "signature/constructor-count",
+            format!("class `{name}`: {} public constructor signatures in the source, {} emitted", public_sigs.len(), emitted_sigs.len()),
+          );
+        } else {
+          for (oc, ec) in public_sigs.iter().zip(emitted_sigs.iter()) {
+            let op = pats(oc);
+            let ep = pats(ec);
+            let opr: Vec<&Pat> = op.iter().collect();
+            let epr: Vec<&Pat> = ep.iter().collect();
+            self.params(&format!("{name}.constructor"), "constructor", &opr, &epr);
+            if oc.accessibility.filter(|a| *a != Accessibility::Public) != ec.accessibility.filter(|a| *a != Accessibility::Public) {
+              self.bad("public-member-modifiers/constructor", format!("class `{name}`"));
+            }
+          }
+        }
+        // parameter properties become property declarations
+        for oc in &octors {
+          for p in &oc.params {
+            let ParamOrTsParamProp::TsParamProp(pp) = p else { continue };
+            if pp.accessibility == Some(Accessibility::Private) {
+              continue;
+            }
+            let (pname, ty) = match &pp.param {
+              TsParamPropParam::Ident(b) => (b.id.sym.to_string(), b.type_ann.as_deref()),
+              TsParamPropParam::Assign(a) => match &*a.left {
+                Pat::Ident(b) => (b.id.sym.to_string(), b.type_ann.as_deref()),
+                _ => continue,
+              },
+            };
+            let ep = emit.body.iter().find_map(|x| match x {
+              ClassMember::ClassProp(e) if key(&e.key).as_deref() == Some(pname.as_str()) && !e.is_static => Some(e),
+              _ => None,
+            });
+            // ambient classes are passed through: the parameter property stays
+            let kept = ectors.iter().any(|c| {
+              c.params.iter().any(|q| match q {
+                ParamOrTsParamProp::TsParamProp(e) => {
+                  let n = match &e.param {
+                    TsParamPropParam::Ident(b) => Some(b.id.sym.to_string()),
+                    TsParamPropParam::Assign(a) => match &*a.left {
+                      Pat::Ident(b) => Some(b.id.sym.to_string()),
+                      _ => None,
+                    },
+                  };
+                  n.as_deref() == Some(pname.as_str()) && e.accessibility == pp.accessibility && e.readonly == pp.readonly
+                }
+                _ => false,
+              })
+            });
+            if kept {
+              continue;
+            }
+            match ep {
+              None => self.bad(
+                "public-member-dropped/parameter-property",
+                format!("class `{name}`: parameter property `{pname}` has no property declaration in the emitted class"),
+              ),
+              Some(e) => {
+                if let Some(t) = ty {
+                  let same = e.type_ann.as_ref().map(|x| x.type_ann.eq_ignore_span(&t.type_ann)).unwrap_or(false);
+                  let widened = e
+                    .type_ann
+                    .as_ref()
+                    .map(|x| match &*x.type_ann {
+                      TsType::TsUnionOrIntersectionType(TsUnionOrIntersectionType::TsUnionType(u)) => {
+                        u.types.iter().any(|y| y.eq_ignore_span(&t.type_ann))
+                      }
+                      _ => false,
+                    })
+                    .unwrap_or(false);
+                  if !same && !widened {
+                    self.bad("signature/parameter-property-type", format!("`{name}.{pname}`"));
+                  }
+                }
+                let norm = |a: Option<Accessibility>| a.filter(|a| *a != Accessibility::Public);
+                if norm(pp.accessibility) != norm(e.accessibility) || pp.readonly != e.readonly {
+                  self.bad("public-member-modifiers/parameter-property", format!("`{name}.{pname}`"));
+                }
+              }
+            }
+          }
+        }
+      }
+    }
     // methods with overloads: only the overload signatures are public
     let mut method_counts: BTreeMap<(String, bool, u8), usize> = BTreeMap::new();
     for m in &orig.body {
@@ -468,6 +584,83 @@ pub fn check_module(
   Some(ed.keys().cloned().collect())
 }
 
+/// Exported member names of the namespace `name` declared at the top level
+/// of `module` (merged blocks united, nested exported namespaces qualified).
+fn namespace_members(module: &Module, name: &str) -> Option<BTreeSet<String>> {
+  fn block(body: &TsNamespaceBody, prefix: &str, out: &mut BTreeSet<String>) {
+    match body {
+      TsNamespaceBody::TsModuleBlock(b) => {
+        for item in &b.body {
+          if let ModuleItem::ModuleDecl(ModuleDecl::ExportDecl(e)) = item {
+            let mut names = BTreeSet::new();
+            fc::decl_names(&e.decl, &mut names);
+            for n in &names {
+              out.insert(format!("{prefix}{n}"));
+            }
+            if let Decl::TsModule(m) = &e.decl {
+              if let (TsModuleName::Ident(i), Some(body)) = (&m.id, &m.body) {
+                block(body, &format!("{prefix}{}.", i.sym), out);
+              }
+            }
+          }
+        }
+      }
+      TsNamespaceBody::TsNamespaceDecl(d) => {
+        out.insert(format!("{prefix}{}", d.id.sym));
+        block(&d.body, &format!("{prefix}{}.", d.id.sym), out);
+      }
+    }
+  }
+  let mut found = false;
+  let mut out = BTreeSet::new();
+  for item in &module.body {
+    let decl = match item {
+      ModuleItem::ModuleDecl(ModuleDecl::ExportDecl(e)) => &e.decl,
+      ModuleItem::Stmt(Stmt::Decl(d)) => d,
+      _ => continue,
+    };
+    if let Decl::TsModule(m) = decl {
+      if let TsModuleName::Ident(i) = &m.id {
+        if i.sym == *name {
+          found = true;
+          if let Some(body) = &m.body {
+            block(body, "", &mut out);
+          }
+        }
+      }
+    }
+  }
+  found.then_some(out)
+}
+
+/// A namespace that is public as a whole keeps every exported member.
+pub fn check_whole_namespace(
+  spec: &ModuleSpecifier,
+  original: &str,
+  emitted: &str,
+  mt: deno_graph::MediaType,
+  name: &str,
+  o: &mut Outcome,
+) {
+  let (Some(po), Some(pe)) = (parse_plain(spec, original, mt), parse_plain(spec, emitted, mt)) else { return };
+  let (deno_ast::ProgramRef::Module(mo), deno_ast::ProgramRef::Module(me)) = (po.program_ref(), pe.program_ref()) else { return };
+  let Some(want) = namespace_members(mo, name) else { return };
+  let got = namespace_members(me, name).unwrap_or_default();
+  let lost: Vec<&String> = want.difference(&got).collect();
+  // members nested under an existing member are the namespace synthesised for
+  // its expando properties (`f.prop = ...` becomes `namespace f { ... }`)
+  let invented: Vec<&String> = got
+    .difference(&want)
+    .filter(|n| !want.iter().any(|w| n.starts_with(&format!("{w}."))))
+    .collect();
+  if !lost.is_empty() || !invented.is_empty() {
+    o.violate(
+      "C11/namespace-members-differ",
+      format!("{spec}: namespace `{name}` is public as a whole but its exported members differ: lost {lost:?}, invented {invented:?}\n--- original\n{original}\n--- emitted\n{emitted}"),
+    );
+  }
+}
+
 pub fn entrypoints_of(graph: &ModuleGraph) -> BTreeSet<ModuleSpecifier> {
   // package_exports(nv) values joined to the package URL
   let mut out = BTreeSet::new();
@@ -538,6 +731,15 @@ pub fn check(case: &Case, _tier: Tier) -> Outcome {
     if pkg.rec.has_impl_only_private && pkg.rec.has_sig_private {
       nontrivial = true;
     }
+    for (path, name) in &pkg.rec.whole_namespaces {
+      let spec =
+        ModuleSpecifier::parse(&format!("{}{}", base, path.trim_start_matches('/'))).unwrap();
+      for (s2, original, emitted, _, mt) in emitted_modules(&p.graph) {
+        if s2 == spec {
+          check_whole_namespace(&spec, &original, &emitted, mt, name, &mut o);
+        }
+      }
+    }
     for (path, names) in &pkg.rec.declared {
       let spec =
         ModuleSpecifier::parse(&format!("{}{}", base, path.trim_start_matches('/'))).unwrap();
@@ -562,6 +764,7 @@ pub fn check(case: &Case, _tier: Tier) -> Outcome {
   if nontrivial {
     o.label("impl-only-private-and-signature-private");
   }
+  c09::mark_named_cycle(&p.pkgs, &mut o);
   o.nontrivial = nontrivial;
   o
 }
@@ -570,5 +773,22 @@ pub fn extra(_tier: Tier, _seed: u64) -> ExtraReport {
   c09::corpus_layer("C11", |g, o| {
     let entry = entrypoints_of(g);
     check_graph(g, &entry, o);
+    // namespaces an entrypoint exports itself are public as a whole
+    for (spec, original, emitted, _, mt) in emitted_modules(g) {
+      if !entry.contains(&spec) {
+        continue;
+      }
+      let Some(po) = parse_plain(&spec, &original, mt) else { continue };
+      let deno_ast::ProgramRef::Module(mo) = po.program_ref() else { continue };
+      for item in &mo.body {
+        if let ModuleItem::ModuleDecl(ModuleDecl::ExportDecl(e)) = item {
+          if let Decl::TsModule(m) = &e.decl {
+            if let TsModuleName::Ident(i) = &m.id {
+              check_whole_namespace(&spec, &original, &emitted, mt, &i.sym, o);
+            }
+          }
+        }
+      }
+    }
   })
 }
